@@ -1,11 +1,27 @@
 #!/bin/bash
 # Runs goflow's own suite on /repo's working tree (or $1) and reports failures other than the baseline's
 # always-failing TestGenerateDocs (needs pandoc). Exit 0 = suite as green as the baseline.
+# Some goflow tests listen on fixed ports (49997, 49999): a package that fails with "address already in use" because
+# another suite runs on this machine at the same time is re-run alone (up to 8 times, 15 s apart) before it counts.
 DIR=${1:-/repo}
 cd "$DIR" || exit 2
 export GOFLAGS=-mod=mod GOPROXY=off GOSUMDB=off GOTOOLCHAIN=local
 go build ./... || { echo "BUILD FAILED"; exit 1; }
 out=$(go test -vet=off -count=1 -timeout 25m ./... 2>&1)
+if echo "$out" | grep -q "address already in use"; then
+  for pkg in $(echo "$out" | grep -E "^FAIL\s+github.com" | awk '{print $2}' | grep -v "cmd/docgen/docs"); do
+    rel=./${pkg#github.com/nyaruka/goflow/}
+    for try in 1 2 3 4 5 6 7 8; do
+      pout=$(go test -vet=off -count=1 -timeout 25m $rel 2>&1)
+      if ! echo "$pout" | grep -q "address already in use"; then break; fi
+      sleep 15
+    done
+    # replace this package's part of the verdict by the re-run
+    out=$(echo "$out" | grep -v -E "^FAIL\s+$pkg" ; echo "RERUN $pkg"; echo "$pout")
+  done
+  # drop the first run's port panics (they belong to packages that were re-run)
+  out=$(echo "$out" | awk '/^RERUN /{r=1} {if (r || ($0 !~ /address already in use/ && $0 !~ /^--- FAIL: TestMigrateTemplate|^--- FAIL: TestRun /)) print}')
+fi
 fails=$(echo "$out" | grep -E "^--- FAIL|^FAIL|panic:" | grep -v "TestGenerateDocs" | grep -v "^FAIL$" | grep -v "cmd/docgen/docs")
 git -C "$DIR" checkout -- go.sum go.mod 2>/dev/null
 if [ -n "$fails" ]; then echo "$fails"; echo "SUITE: FAILURES"; exit 1; fi
